@@ -160,16 +160,19 @@ Definition cell_eqv (c c' : mcell) : Prop :=
   | _, _ => c = c'
   end.
 
-Definition oeqv (o o' : option mcell) : Prop :=
+(* a cell together with its write counter: a reader cell may have been written (its position), any
+   other cell must not have been stored to at all *)
+Definition veqv (o o' : option (mcell * nat)) : Prop :=
   match o, o' with
-  | Some c, Some c' => cell_eqv c c'
+  | Some (c, v), Some (c', v') => cell_eqv c c' /\ (v' = v \/ exists r, c = CRdr r)
   | None, None => True
   | _, _ => False
   end.
 
-(* frozen cells stay frozen and keep their content (readers: up to their positions) *)
+(* frozen cells stay frozen, keep their content (readers: up to their positions) and, readers apart,
+   are not even written *)
 Definition Ext (tg : tags) (h : mheap) (tg' : tags) (h' : mheap) : Prop :=
-  forall a, tg a = TFrozen -> tg' a = TFrozen /\ oeqv (hget h a) (hget h' a).
+  forall a, tg a = TFrozen -> tg' a = TFrozen /\ veqv (hgetv h a) (hgetv h' a).
 
 Lemma rdr_eqv_refl : forall r, rdr_eqv r r.
 Proof. destruct r; cbn; auto. Qed.
@@ -183,17 +186,26 @@ Proof.
   destruct a, b; cbn in H1; try contradiction; try discriminate; try (inversion H1; subst; exact H2).
   destruct c; cbn in *; try contradiction. eapply rdr_eqv_trans; eauto.
 Qed.
-Lemma oeqv_refl : forall o, oeqv o o.
-Proof. destruct o; cbn; auto using cell_eqv_refl. Qed.
-Lemma oeqv_trans : forall a b c, oeqv a b -> oeqv b c -> oeqv a c.
-Proof. intros [x|] [y|] [z|]; cbn; try tauto. apply cell_eqv_trans. Qed.
+Lemma veqv_refl : forall o, veqv o o.
+Proof. destruct o as [[c v]|]; cbn; auto using cell_eqv_refl. Qed.
+Lemma cell_eqv_rdr_l : forall c c' r, cell_eqv c c' -> c = CRdr r -> exists r', c' = CRdr r'.
+Proof. intros c c' r E ->. destruct c'; cbn in E; try contradiction. eauto. Qed.
+Lemma cell_eqv_rdr_r : forall c c' r, cell_eqv c c' -> c' = CRdr r -> exists r', c = CRdr r'.
+Proof. intros c c' r E ->. destruct c; cbn in E; try contradiction; try discriminate. eauto. Qed.
+Lemma veqv_trans : forall a b c, veqv a b -> veqv b c -> veqv a c.
+Proof.
+  intros [[x vx]|] [[y vy]|] [[z vz]|]; cbn; try tauto. intros [E1 V1] [E2 V2].
+  split; [eapply cell_eqv_trans; eauto|].
+  destruct V1 as [->|R1]; [|right; assumption].
+  destruct V2 as [->|[r R2]]; [left; reflexivity|]. right. eapply cell_eqv_rdr_r; eauto.
+Qed.
 
 Lemma Ext_refl : forall tg h, Ext tg h tg h.
-Proof. intros tg h a H; split; [assumption | apply oeqv_refl]. Qed.
+Proof. intros tg h a H; split; [assumption | apply veqv_refl]. Qed.
 Lemma Ext_trans : forall tg1 h1 tg2 h2 tg3 h3, Ext tg1 h1 tg2 h2 -> Ext tg2 h2 tg3 h3 -> Ext tg1 h1 tg3 h3.
 Proof.
   intros * H1 H2 a Ha. destruct (H1 a Ha) as [Hb E1]. destruct (H2 a Hb) as [Hc E2].
-  split; [assumption | eapply oeqv_trans; eauto].
+  split; [assumption | eapply veqv_trans; eauto].
 Qed.
 
 Lemma cell_eqv_nonrdr : forall c c', (forall r, c <> CRdr r) -> cell_eqv c c' -> c' = c.
@@ -205,16 +217,27 @@ Qed.
 Lemma ext_same : forall tg h tg' h' a c, Ext tg h tg' h' -> tg a = TFrozen -> hget h a = Some c ->
   (forall r, c <> CRdr r) -> hget h' a = Some c.
 Proof.
-  intros * HE Ha Hc Hn. destruct (HE a Ha) as [_ E]. rewrite Hc in E. cbn in E.
-  destruct (hget h' a) as [c'|]; [|contradiction].
-  destruct c, c'; cbn in E; try contradiction; try congruence; exfalso; eapply Hn; reflexivity.
+  intros * HE Ha Hc Hn. destruct (HE a Ha) as [_ E]. apply hget_some in Hc. destruct Hc as [v Hc].
+  rewrite Hc in E. cbn in E. destruct (hgetv h' a) as [[c' v']|] eqn:G; [|contradiction].
+  destruct E as [E _]. apply cell_eqv_nonrdr in E; [|assumption]. subst. apply hget_some. eauto.
 Qed.
 
 Lemma ext_rdr : forall tg h tg' h' a r, Ext tg h tg' h' -> tg a = TFrozen -> hget h a = Some (CRdr r) ->
   exists r', hget h' a = Some (CRdr r') /\ rdr_eqv r r'.
 Proof.
-  intros * HE Ha Hc. destruct (HE a Ha) as [_ E]. rewrite Hc in E. cbn in E.
-  destruct (hget h' a) as [c'|]; [|contradiction]. destruct c'; cbn in E; try contradiction. eauto.
+  intros * HE Ha Hc. destruct (HE a Ha) as [_ E]. apply hget_some in Hc. destruct Hc as [v Hc].
+  rewrite Hc in E. cbn in E. destruct (hgetv h' a) as [[c' v']|] eqn:G; [|contradiction].
+  destruct E as [E _]. destruct c'; cbn in E; try contradiction. exists r0. split; [apply hget_some; eauto | assumption].
+Qed.
+
+(* … and was not stored to *)
+Lemma ext_unwritten : forall tg h tg' h' a c v, Ext tg h tg' h' -> tg a = TFrozen -> hgetv h a = Some (c, v) ->
+  (forall r, c <> CRdr r) -> hgetv h' a = Some (c, v).
+Proof.
+  intros * HE Ha Hc Hn. destruct (HE a Ha) as [_ E]. rewrite Hc in E. cbn in E.
+  destruct (hgetv h' a) as [[c' v']|] eqn:G; [|contradiction].
+  destruct E as [E [->|[r Hr]]]; [|exfalso; eapply Hn; eauto].
+  apply cell_eqv_nonrdr in E; [|assumption]. subst. reflexivity.
 Qed.
 
 (* ------------------------------------------------------------------ stability under Ext *)
@@ -409,4 +432,4 @@ Proof.
 Qed.
 
 Lemma inv_init : Inv (fun _ => TFree) (hp pinit).
-Proof. intros [r i]. unfold cell_ok_at, hget. cbn. destruct r as [|[|r]]; destruct i; reflexivity. Qed.
+Proof. intros [r i]. unfold cell_ok_at, hget, hgetv. cbn. destruct r as [|[|r]]; destruct i; reflexivity. Qed.
